@@ -1334,6 +1334,110 @@ def absent_only_when_empty(ctx):
     ctx.note('%d length tests on values just read' % n)
 
 
+def _place_sig(fb, op, limit=8):
+    """(root local, field path) of the place an operand refers to, looking through `&place`, reborrows and plain copies;
+    None when the operand is not a place or its root has several definitions."""
+    if not is_place(op):
+        return None
+    pl = op_place(op)
+    l, path = pl['l'], [x for x in proj_names(pl) if x != '*']
+    for _ in range(limit):
+        if fb.is_param(l):
+            break
+        d = lib.single_def(fb, l)
+        if d is None or d.kind != 'assign':
+            break
+        rv = d.rv
+        if rv['k'] == 'ref':
+            src = rv['pl']
+        elif rv['k'] == 'use' and is_place(rv['a']):
+            src = op_place(rv['a'])
+        else:
+            break
+        l, path = src['l'], [x for x in proj_names(src) if x != '*'] + path
+    return (l, tuple(path))
+
+
+ITER_CALLS = (r'IntoIterator>::into_iter$', r'::iter$', r'::flat_iter$', r'::iter_mut$')
+
+
+@rule('C13', 'announced-count-is-the-length-of-what-follows', configs=('default', 'p256'))
+def announced_count_of_what_follows(ctx):
+    """Writer side of the counted-sequence framing: when `write` announces `X.len()` and then iterates a collection to write its
+    elements, the collection it iterates next is X itself. (Announcing the length of one field and writing the elements of
+    another gives the same bytes only while the two happen to have the same size — e.g. the markers of the identifier and
+    the tracing points of a user key, until `refresh` changes one of them.) Decided only when both places hang off the same
+    root (self, or the same loop binding); anything else is left to `agree`."""
+    F = ctx.F
+    n = 0
+    for (i, w, r, ln) in serializable_impls(F):
+        if w is None:
+            continue
+        name = norm_ty(i['self'])
+        for fb in F.family(w.key):
+            for c in fb.calls():
+                if not c.is_(r'Serializer::write_leb128_u64$') or c.b not in fb.live_blocks() or len(c.args) < 2:
+                    continue
+                sl = backward_slice(fb, [c.args[1]], follow_mutarg=False)
+                lens = [x for x in sl.calls if x.is_(r'::len$') and x.args]
+                if len(lens) != 1:
+                    continue
+                s1 = _place_sig(fb, lens[0].args[0])
+                if s1 is None:
+                    continue
+                after = fb.reach(fb.succs[c.b])
+                its = [x for x in fb.calls() if x.b in after and x.b in fb.live_blocks() and x.is_(*ITER_CALLS) and x.args
+                       and x.ln >= c.ln]
+                if not its:
+                    continue
+                nxt = min(its, key=lambda x: (x.ln, x.b))
+                s2 = _place_sig(fb, nxt.args[0])
+                if s2 is None or s2[0] != s1[0]:
+                    continue
+                n += 1
+                k = min(len(s1[1]), len(s2[1]))
+                # a wrapper's own `len` / `iter` (RevisionMap) and its inner container are the same collection: prefixes agree
+                ctx.check(s1[1][:k] == s2[1][:k], name, 'write: count announced = length of the collection written next',
+                          'write of %s announces the length of `%s` (line %d) and then writes the elements of `%s` (line %d): the '
+                          'reader takes the announced number of elements, so the object is mis-framed as soon as the two sizes differ'
+                          % (name, '.'.join(s1[1]) or '_%d' % s1[0], c.ln, '.'.join(s2[1]) or '_%d' % s2[0], nxt.ln),
+                          'same place', fb.where(c.ln))
+    ctx.floor(n, 4 if _ONLY[0] is None else 0, 'announced counts followed by a loop over the same root')
+
+
+@rule('C13', 'length-counts-variable-prefixes', configs=('default', 'p256'))
+def length_counts_variable_prefixes(ctx):
+    """'the serialization has exactly the announced length': a LEB128 prefix is one byte only below 128. When `write` emits a
+    prefix whose value is not a constant (write_vec of a field, write_leb128_u64 of a computed number), `length` sizes it with
+    `to_leb128_len` (directly or through a helper) instead of assuming one byte."""
+    F = ctx.F
+    n = 0
+    for (i, w, r, ln) in serializable_impls(F):
+        if w is None or ln is None:
+            continue
+        name = norm_ty(i['self'])
+        var = []
+        for fb in F.family(w.key):
+            for c in fb.calls():
+                if c.b not in fb.live_blocks():
+                    continue
+                if c.is_(r'Serializer::write_vec$'):
+                    var.append(c)
+                elif c.is_(r'Serializer::write_leb128_u64$') and len(c.args) > 1 and is_place(c.args[1]):
+                    sl = backward_slice(fb, [c.args[1]], follow_mutarg=False)
+                    if sl.calls:
+                        var.append(c)
+        if not var:
+            continue
+        n += 1
+        sized = any(c.is_(r'to_leb128_len$') for fb in lib.family_ext(F, ln.key) for c in fb.calls() if c.b in fb.live_blocks())
+        ctx.check(sized, name, 'length sizes variable prefixes',
+                  'write of %s emits a LEB128 prefix of variable value (line %d) but length never calls to_leb128_len: the announced '
+                  'length is short by one byte as soon as the prefixed value reaches 128' % (name, var[0].ln),
+                  'to_leb128_len reached from length', ln.where())
+    ctx.floor(n, 3 if _ONLY[0] is None else 0, 'writers with variable-value prefixes')
+
+
 @rule('C13', 'length-sums-every-element', configs=('default', 'p256'))
 def length_sums_every_element(ctx):
     """`length` announces what `write` emits for EVERY element of a collection: it sums over the elements; it never multiplies the
